@@ -22,7 +22,8 @@ def budget(tier):
 
 def gen_cases(rng, n, tier):
     cfgs = [c for c in B.all_cfgs('blog') + B.all_cfgs('comp')[::2] + B.all_cfgs('blog', dict(class_names=True))[::2]
-            + B.all_cfgs('comp', dict(class_names=True))[::4] if c['strategy'] == 'validity']
+            + B.all_cfgs('comp', dict(class_names=True))[::4] + [c for c in B.all_cfgs('inh') if not c['null_delete']]
+            if c['strategy'] == 'validity']
     return B.gen_cases_default(rng, n, tier, cfgs=cfgs)
 
 
